@@ -18,6 +18,7 @@ struct vb_list_LogContainer_p { struct LogContainer *items[VB_L]; size_t head, t
 #define VB_INIT_list(l) ((l)->head = 0, (l)->tail = 0)
 #define VB_DTOR_list(l) ((void)0)
 #define VB_LIST_EMPTY(l) ((l).head == (l).tail)
+#define VB_LIST_SIZE(l) ((size_t)((l).tail - (l).head))
 #define VB_LIST_FRONT(l) ((l).items[(l).head])
 #define VB_LIST_BACK(l) ((l).items[(l).tail - 1])
 #define VB_LIST_AT(l, i) ((l).items[i])
